@@ -192,10 +192,48 @@ def optsOf? (s : List Char) (filters : List Filter) : Option Opts :=
 
 def kinds : List String := ["coll", "ctr", "cr", "grp", "spec", "user"]
 
+/-- label of the stub that `chooseBackend cfg id` is (conn.go:108-123) -/
+def chooseTarget (localId : ClusterId) (rem : List ClusterId) (id : List Char) : ClusterId :=
+  let c : Option ClusterId :=
+    if id.length = 27 then some (id.take 5) else if id.length ≠ 5 then none else some id
+  match c with
+  | none => localId
+  | some c => if c == localId then localId else if rem.contains c then c else localId
+
+def renderCalls (cs : List (Opts × Resp)) : String :=
+  " // ".intercalate (cs.map fun c => renderReq c.1 ++ " => " ++ renderResp c.2)
+
+def renderHead (out : Outcome) : String :=
+  match out with
+  | .ok items => "ok " ++ joinC "," (pageUuids items)
+  | .err ss =>
+    let u := (ss.eraseDups.toArray.qsort (· < ·)).toList
+    if u.isEmpty then "deadlock" else "err " ++ "|".intercalate (u.map toString)
+
+def renderLogs (logs : List (String × String)) : String :=
+  let logs := logs.toArray.qsort (fun a b => a.1 < b.1) |>.toList
+  if logs.isEmpty then "-" else " | ".intercalate (logs.map fun e => e.1 ++ ": " ++ e.2)
+
+def renderURun (localId : ClusterId) (rem : List ClusterId) (login : ClusterId) (r : URun) : String :=
+  match r.detour with
+  | none => renderRun ⟨r.out, r.log⟩
+  | some call =>
+    let target := String.ofList (chooseTarget localId rem login)
+    let upd := match r.update with
+      | none => []
+      | some (us, failed) =>
+        [(String.ofList localId ++ "#upd",
+          "U=" ++ joinC "," (sortStrs us) ++ " => " ++ (if failed then "E0" else "P-"))]
+    renderHead r.out ++ " | " ++ renderLogs ((target, renderCalls [call]) :: upd)
+
 def step (line : String) : String :=
   match fields line with
-  | ["list", kind, loc, max, remotes, opts, filters, world, scripts] =>
-    if !kinds.contains kind then "bad-op" else
+  | ["list", kind0, loc, max, remotes, opts, filters, world, scripts] =>
+    let (kind, login?) : String × Option (List Char) :=
+      match splitFirst '@' kind0.toList with
+      | some (k, l) => (String.ofList k, some l)
+      | none => (kind0, none)
+    if !kinds.contains kind || (login?.isSome && kind != "user") then "bad-op" else
     let res : Option String := do
       let maxItems ← max.toInt?
       let fs ← (listOf ';' filters.toList).mapM filterOf?
@@ -223,7 +261,13 @@ def step (line : String) : String :=
           if i < sc.length then some i else none
         else none
       let hasWait := scs.any (fun p => p.2.any isWait)
-      pure (renderRun (if hasWait then runCancel cfg o cut else run cfg o))
+      match login? with
+      | some login =>
+        let updFails := match scriptFor (localId ++ "#upd".toList) with
+          | .err _ :: _ => true
+          | _ => false
+        pure (renderURun localId rem login (runUserList cfg login updFails o))
+      | none => pure (renderRun (if hasWait then runCancel cfg o cut else run cfg o))
     res.getD "bad-op"
   | _ => "bad-op"
 
